@@ -266,6 +266,11 @@ func runC03(c *Ctx, _ []string) {
 				emit("splice", fmt.Sprintf("%s at %d", tag, cut), append(m[:cut], tail...))
 			}
 		}
+		if !big && bi%4 == 1 { // every cut inside the header and the first frame header (each header field is read by its own code)
+			for cut := 0; cut <= 48 && cut < len(stream); cut++ {
+				emit("header-cut", fmt.Sprintf("%s cut at %d", tag, cut), append([]byte{}, stream[:cut]...))
+			}
+		}
 		if !big && bi%4 == 0 { // forged headers: boundary values of the optional original-size field (present but 0, 1, around the block size, all ones)
 			for szm := uint64(1); szm <= 3; szm++ {
 				for _, hint := range []uint64{0, 1, uint64(ci.Block) - 1, uint64(ci.Block), 63 * uint64(ci.Block), (1 << (16 * szm)) - 1} {
